@@ -1,3 +1,4 @@
 -- Root of the `PlasVerif` library: every property file (they import their models, specs and proofs).
 import PlasVerif.Properties.C01
+import PlasVerif.Properties.C04
 import PlasVerif.Properties.C19
